@@ -21,11 +21,12 @@ Nested(w)       == w = "[[T!]]"
 \*            "result" / "result_nested" / "result_fragment": the same machine read in the other direction (C07, result
 \*            side): the server returns the value, `wire` is what reaches user code, serLog logs the user's PARSE function
 \* states of the call for this argument: "omitted", "none", "val", "val_nullitem" (a null item in the list), "empty" ([]),
-\*   "val_falsy" (a valid value that is falsy in Python: 0, a zero duration, an empty object)
+\*   "val_falsy" (a valid value that is falsy in Python: 0, a zero duration, an empty object),
+\*   "val_nullfirst" (the list STARTS with a null item)
 IsResult(p) == p \in {"result", "result_nested", "result_fragment"}
 ValidCase(w, s) ==
   /\ s \in {"omitted", "none"} => Nullable(w)
-  /\ s = "val_nullitem" => IsList(w) /\ ItemNullable(w)
+  /\ s \in {"val_nullitem", "val_nullfirst"} => IsList(w) /\ ItemNullable(w)
   /\ s = "empty" => IsList(w)
 Cases == {c \in [w : Wrappers, kind : Kinds, pos : Positions, state : States] :
             /\ ValidCase(c.w, c.state)
@@ -40,6 +41,7 @@ CallerValue(w, s) ==
     [] ~IsList(w) -> <<"v", 1>>
     [] Nested(w) -> <<"L", <<"L", <<"v", 1>>, <<"v", 2>>>>, <<"L", <<"v", 3>>>>>>
     [] s = "val_nullitem" -> <<"L", <<"v", 1>>, <<"null">>, <<"v", 2>>>>
+    [] s = "val_nullfirst" -> <<"L", <<"null">>, <<"v", 1>>, <<"v", 2>>>>
     [] OTHER -> <<"L", <<"v", 1>>, <<"v", 2>>>>
 RECURSIVE Leaves(_)
 Leaves(t) == IF t[1] = "v" THEN <<t[2]>> ELSE IF t[1] = "null" THEN <<>>
